@@ -17,6 +17,154 @@ AM = "pattern::Pattern::alternate_match"
 NEW = "pattern::Pattern::new"
 
 
+class _Cond:
+    kind = "cond"
+
+    def __init__(self, term, fact):
+        self.term, self.fact = term, fact
+
+
+class _WithCond:
+    """a path extended by one more assumed condition (the returned boolean expression taken as true / false)"""
+
+    def __init__(self, p, term, truth):
+        self.p, self.extra = p, _Cond(term, ("eq", truth))
+        self.end, self.env, self.events = p.end, p.env, p.events
+
+    def conds(self):
+        return list(self.p.conds()) + [self.extra]
+
+
+def scan_balance(ctx, key, paths, body, param, succ, fail, all_returns=None):
+    """The balance scan, on its normal form: one pass over the characters of `param` keeping a nesting depth -- a stack that is pushed / popped, or an
+    integer that is incremented / decremented -- where '{' goes one level deeper, '}' one level up or FAILS at depth 0, other characters change nothing,
+    and the end of the text SUCCEEDS at depth 0 and FAILS otherwise.  `succ` / `fail` are the function's successful / failing exits."""
+    backs = [p for p in paths if p.end[0] == "back"]
+
+    def nxt(p):
+        return [c for c in p.conds() if c.term[0] == "discr" and is_call(c.term[1], "Chars as std::iter::Iterator>::next")]
+
+    def cur(p):
+        n = nxt(p)
+        return ("field", ("downcast", n[-1].term[1], "Some"), 0, "0") if n else None
+
+    def char_class(p):
+        known = {}
+        cc = cur(p)
+        for c in p.conds():
+            t = c.term
+            if isinstance(t, tuple) and t[0] == "binop" and t[1] in ("Eq", "Ne") and const_char(t[3]) in ("{", "}") and strip_refs(t[2]) == cc and isinstance(c.fact[1], bool):
+                known[const_char(t[3])] = (c.fact[1] is True) == (t[1] == "Eq")
+            elif strip_refs(t) == cc and cc is not None:
+                if c.fact[0] == "eq" and isinstance(c.fact[1], int):
+                    known["{"] = c.fact[1] == 123
+                    known["}"] = c.fact[1] == 125
+                elif c.fact[0] == "ne":
+                    for k in c.fact[1]:
+                        if k in (123, 125):
+                            known[chr(k)] = False
+        if known.get("{"):
+            return "{"
+        if known.get("}"):
+            return "}"
+        if known.get("{") is False and known.get("}") is False:
+            return "other"
+        return None
+    # the depth: a Vec local (stack) or an integer local (counter), found by what the exits test once the characters are exhausted
+    depth = None
+    for p in list(succ) + list(fail):
+        n = nxt(p)
+        if not (n and n[-1].fact == ("eq", 0)):
+            continue
+        for c in p.conds():
+            if is_call(c.term, "Vec::is_empty") and isinstance(strip_refs(call_args(c.term)[0]), tuple) and strip_refs(call_args(c.term)[0])[0] in ("havoc", "mutated"):
+                depth = ("stack", strip_refs(call_args(c.term)[0])[1])
+            t = c.term
+            if isinstance(t, tuple) and t[0] == "binop" and t[1] in ("Eq", "Ne", "Gt") and isinstance(t[2], tuple) and t[2][0] == "havoc" and const_int(t[3]) == 0:
+                depth = ("counter", t[2][1])
+
+    def zero(c):
+        """True / False if the condition says the depth is zero / non-zero, else None"""
+        if depth is None or not isinstance(c.fact[1], bool):
+            return None
+        t = c.term
+        if depth[0] == "stack":
+            if is_call(t, "Vec::is_empty") and isinstance(strip_refs(call_args(t)[0]), tuple) and strip_refs(call_args(t)[0])[1:2] == (depth[1],):
+                return c.fact[1]
+            if is_call(t, "Option::is_none") and mentions(t, lambda s: is_call(s, "Vec::pop")):
+                return c.fact[1]
+            return None
+        if isinstance(t, tuple) and t[0] == "binop" and isinstance(t[2], tuple) and t[2][0] == "havoc" and t[2][1] == depth[1] and const_int(t[3]) == 0:
+            unsigned = body.f["locals"][depth[1]]["ty"].startswith("u")
+            if t[1] == "Eq":
+                return c.fact[1]
+            if t[1] == "Ne" or (t[1] == "Gt" and unsigned):
+                return not c.fact[1]
+        return None
+
+    def effect(p):
+        if depth is None:
+            return "?"
+        if depth[0] == "stack":
+            ev = [e.name.split("::")[-1] for e in p.events if e.kind == "call" and e.name.split("::")[-1] in ("push", "pop", "clear", "truncate", "remove", "insert")
+                  and isinstance(e.args[0], tuple) and e.args[0][0] == "refmut" and isinstance(e.args[0][1], tuple) and e.args[0][1][:2] == ("loc", depth[1])]
+            return {(): "none", ("push",): "inc", ("pop",): "dec"}.get(tuple(ev), "other:%s" % ",".join(ev))
+        v = p.env.get(depth[1])
+        if isinstance(v, tuple) and v[0] == "havoc" and v[1] == depth[1]:
+            return "none"
+        if isinstance(v, tuple) and v[0] == "binop" and v[1] in ("Add", "Sub") and isinstance(v[2], tuple) and v[2][0] == "havoc" and v[2][1] == depth[1] and const_int(v[3]) == 1:
+            return "inc" if v[1] == "Add" else "dec"
+        return "other"
+    ctx.check(depth is not None, "D4-BALANCE", key, "depth-state", "the nesting depth is a stack or a counter (%s)" % (depth[0] if depth else "?"),
+              "no nesting-depth state (a stack tested with is_empty, or a counter compared with 0) was recognised in the balance scan", fn_span(body), nontrivial=False)
+    if depth is None:
+        return
+    # starts at depth 0 over the characters of the pattern
+    init_ok = False
+    for p in backs[:1]:
+        for l, v in p.env.items():
+            pass
+    hv = [s_ for p in paths for c in p.conds() for s_ in subterms(c.term) if s_[0] == "havoc" and s_[1] == depth[1] and len(s_) > 3]
+    if depth[0] == "counter":
+        init_ok = bool(hv) and all(const_int(h[3]) == 0 for h in hv)
+    else:
+        init_ok = all(is_call(strip_refs(h[3]), "Vec::<T>::new", "Vec::new") for h in hv)
+    src_ok = bool(backs) and all(nxt(p) and mentions(nxt(p)[-1].term, lambda s_: is_call(s_, "str>::chars") and strip_refs(call_args(s_)[0]) == ("param", param)) for p in backs)
+    ctx.check(init_ok and src_ok, "D4-BALANCE", key, "scan-start", "the scan starts at depth 0 and runs over the pattern's characters",
+              "the balance scan does not start at depth 0 over chars() of the pattern", fn_span(body), nontrivial=False)
+    for i, p in enumerate(succ):
+        n = nxt(p)
+        zs = [zero(c) for c in p.conds() if zero(c) is not None]
+        ok = bool(n) and n[-1].fact == ("eq", 0) and bool(zs) and zs[-1] is True and mentions(n[-1].term, lambda s_: is_call(s_, "str>::chars") and strip_refs(call_args(s_)[0]) == ("param", param))
+        ctx.check(ok, "D4-BALANCE", key, "alternate-path-%d" % i, "success only after the whole pattern was scanned and the depth is back to zero",
+                  "the balance scan succeeds (an Alternate pattern is constructed) without having finished at depth zero", fn_span(body))
+    table = {}
+    for p in backs:
+        k = char_class(p)
+        eff = effect(p)
+        if k == "}" and depth[0] == "counter" and eff == "dec" and not any(zero(c) is False for c in p.conds()):
+            eff = "dec-unguarded"
+        table.setdefault(k if k is not None else "unknown", set()).add(eff)
+    ctx.check(table.get("{") == {"inc"} and table.get("}") == {"dec"} and table.get("other") == {"none"} and set(table) == {"{", "}", "other"}, "D4-BALANCE", key, "scan-table",
+              "'{' goes one level deeper, '}' one level up, other characters have no effect",
+              "balance scan effects are %s; expected '{' -> one deeper, '}' -> one up (only when not at depth 0), other -> nothing" % {k: sorted(v) for k, v in table.items()}, fn_span(body))
+    kinds = set()
+    for p in fail:
+        n = nxt(p)
+        zs = [zero(c) for c in p.conds() if zero(c) is not None]
+        if n and n[-1].fact == ("eq", 1) and char_class(p) == "}" and zs and zs[-1] is True:
+            kinds.add("close-without-open")
+        elif n and n[-1].fact == ("eq", 0) and zs and zs[-1] is False:
+            kinds.add("unclosed")
+        else:
+            kinds.add("other")
+    ctx.check(kinds == {"close-without-open", "unclosed"}, "D4-BALANCE", key, "error-exits", "failure on '}' without '{' and on an unclosed '{'",
+              "the failing exits of the balance scan are %s; expected exactly: '}' at depth zero, and a non-zero depth at the end" % sorted(kinds), fn_span(body))
+    if all_returns is not None:
+        ctx.check(len(all_returns) == len({id(getattr(p, "p", p)) for p in list(succ) + list(fail)}), "D4-BALANCE", key, "verdict-is-constant", "every return is true, false, or the depth-is-zero test",
+                  "%s has a return that is neither `true` nor `false`" % key, fn_span(body), nontrivial=False)
+
+
 def run(ctx):
     fx = ctx.fx
     paths = ctx.paths(AM)
@@ -96,7 +244,7 @@ def run(ctx):
         ctx.check(not unw and bool(skip), "D3-SKIP-INVALID", AM, "invalid-expansion-skipped", "an expansion that fails to compile is skipped",
                   "an invalid expansion is unwrapped (%s) or there is no skip path for it" % unw, fn_span(body))
 
-    # ---- D4 balance check in Pattern::new
+    # ---- D4 balance check in Pattern::new (or in a helper predicate it consults on its own argument)
     paths = ctx.paths(NEW)
     body = ctx.body(NEW)
     if paths:
@@ -109,40 +257,42 @@ def run(ctx):
                 mt = agg_variant(flds.get("matchtype"))
                 if mt and mt[1] == "Alternate":
                     alts.append(p)
-        ctx.floor("D4-BALANCE", NEW, "paths constructing Alternate", len(alts), 1)
-        for i, p in enumerate(alts):
-            nx = [c for c in p.conds() if c.term[0] == "discr" and is_call(c.term[1], "Chars as std::iter::Iterator>::next")]
-            em = [c for c in p.conds() if is_call(c.term, "Vec::is_empty")]
-            ok = bool(nx) and nx[-1].fact == ("eq", 0) and bool(em) and em[-1].fact == ("eq", True) and mentions(nx[-1].term, lambda s: is_call(s, "str>::chars") and strip_refs(call_args(s)[0]) == ("param", 1))
-            ctx.check(ok, "D4-BALANCE", NEW, "alternate-path-%d" % i, "Alternate is constructed only after the whole pattern was scanned and the stack is empty",
-                      "an Alternate pattern is constructed without the balance scan having finished with an empty stack", fn_span(body))
-        # loop body table
-        backs = [p for p in paths if p.end[0] == "back"]
-        table = {}
-        for p in backs:
-            ch = {}
-            for c in p.conds():
-                t = c.term
-                if isinstance(t, tuple) and t[0] == "binop" and t[1] == "Eq" and const_char(t[3]) in ("{", "}"):
-                    ch[const_char(t[3])] = (c.fact == ("eq", True))
-            eff = tuple(sorted({mir.norm_path(e.path).split("::")[-1] for e in p.events if e.kind == "call" and e.name.split("::")[-1] in ("push", "pop")}))
-            key = "{" if ch.get("{") else ("}" if ch.get("}") else "other")
-            table.setdefault(key, set()).add(eff)
-        ctx.check(table.get("{") == {("push",)} and table.get("}") == {("pop",)} and table.get("other") == {()}, "D4-BALANCE", NEW, "scan-table",
-                  "'{' pushes, '}' pops, other characters have no effect", "balance scan effects are %s; expected '{' -> push, '}' -> pop, other -> nothing" % {k: sorted(v) for k, v in table.items()}, fn_span(body))
         errs = [p for p in ret_paths(paths) if unwrap_err(p.end[1]) is not None and agg_variant(unwrap_err(p.end[1])) and agg_variant(unwrap_err(p.end[1]))[1] == "Alternate"]
-        kinds = set()
-        for p in errs:
-            pn = [c for c in p.conds() if is_call(c.term, "Option::is_none") and mentions(c.term, lambda s: is_call(s, "Vec::pop"))]
-            em = [c for c in p.conds() if is_call(c.term, "Vec::is_empty")]
-            if pn and pn[-1].fact == ("eq", True):
-                kinds.add("close-without-open")
-            elif em and em[-1].fact == ("eq", False):
-                kinds.add("unclosed")
-            else:
-                kinds.add("other")
-        ctx.check(kinds == {"close-without-open", "unclosed"}, "D4-BALANCE", NEW, "error-exits", "Err(Alternate) on '}' without '{' and on an unclosed '{'",
-                  "Err(Alternate) exits are %s; expected exactly: '}' with an empty stack, and a non-empty stack at the end" % sorted(kinds), fn_span(body))
+        ctx.floor("D4-BALANCE", NEW, "paths constructing Alternate", len(alts), 1)
+        # a helper predicate: every Alternate construction has `helper(pattern)` true, every Err(Alternate) has it false
+        helper = None
+        for p in alts:
+            for c in p.conds():
+                t = strip_refs(c.term)
+                if is_call(t) and fx.fn(t[1]) is not None and len(call_args(t)) >= 1 and strip_refs(call_args(t)[-1]) == ("param", 1) and c.fact[0] == "eq" and isinstance(c.fact[1], bool) \
+                        and any(is_call(x, "str>::chars", "str>::bytes", "str>::char_indices") for _, x in [(0, ("call", tt["func"]["path"], (), (), None)) for _, tt in ctx.body(t[1]).calls()]):
+                    helper = t[1]
+        if helper is None:
+            scan_balance(ctx, NEW, paths, body, 1, succ=alts, fail=errs)
+        else:
+            hp = ctx.paths(helper) or []
+            hb = ctx.body(helper)
+            np_ = len(hb.f.get("params", [])) or 1
+            # `return depth == 0` is the two exits `if depth == 0 { return true } return false`
+            succ_, fail_ = [], []
+            for p in ret_paths(hp):
+                v = p.end[1]
+                if const_of(v) is True:
+                    succ_.append(p)
+                elif const_of(v) is False:
+                    fail_.append(p)
+                elif isinstance(v, tuple) and (v[0] == "binop" or is_call(v, "Vec::is_empty")):
+                    succ_.append(_WithCond(p, v, True))
+                    fail_.append(_WithCond(p, v, False))
+            scan_balance(ctx, helper, hp, hb, np_, succ=succ_, fail=fail_, all_returns=ret_paths(hp))
+
+            def verdict(p):
+                vs = [c.fact[1] for c in p.conds() if is_call(strip_refs(c.term)) and strip_refs(c.term)[1] == helper and strip_refs(call_args(strip_refs(c.term))[-1]) == ("param", 1)]
+                return vs[-1] if vs else None
+            ctx.check(bool(alts) and all(verdict(p) is True for p in alts), "D4-BALANCE", NEW, "alternate-only-if-balanced", "Alternate is constructed only when %s(pattern) holds" % helper.split("::")[-1],
+                      "an Alternate pattern is constructed without %s(pattern) having answered true" % helper, fn_span(body))
+            ctx.check(bool(errs) and all(verdict(p) is False for p in errs), "D4-BALANCE", NEW, "unbalanced-is-an-error", "Err(Alternate) exactly when %s(pattern) fails" % helper.split("::")[-1],
+                      "Err(Alternate) is not returned exactly when %s(pattern) is false" % helper, fn_span(body))
 
     # ---- D4 (continued): every pattern containing '{' or '}' reaches that balance check, nothing else does (the dispatch table of
     #      Pattern::new, shared with C05): a pattern with a stray '}' must not slip through as a plain string
